@@ -404,7 +404,9 @@ pub fn requests(prop: &str, fl: &str, g: &GraphSpec, thorough: bool, rng: Option
                     h += 1;
                     let t2 = (t + 1 + h % n.max(1)) % n.max(1);
                     let (a, b) = if d == "tr" { (t, r) } else { (r, t) };
-                    let pats = [format!("path+c.{a}.{b}.1+path"), format!("path+d.{a}.{b}+path"), format!("path+x.{t2}+path+cycle"), format!("path+c.{t2}.{b}.0+node")];
+                    // (the last two add an edge INTO the root of the search after the builder was made)
+                    let rr = if d == "tr" { (r, t2) } else { (t2, r) };
+                    let pats = [format!("path+c.{a}.{b}.1+path"), format!("path+d.{a}.{b}+path"), format!("path+x.{t2}+path+cycle"), format!("path+c.{t2}.{b}.0+node"), format!("path+c.{}.{}.2+path", rr.0, rr.1), format!("path+c.{}.{}.2+node", rr.0, rr.1)];
                     l.push(format!("search {k} {d} {r} {t} none {}", pats[h % pats.len()]));
                 }
             }
@@ -425,7 +427,7 @@ pub fn requests(prop: &str, fl: &str, g: &GraphSpec, thorough: bool, rng: Option
                 v += 1;
                 if v % 3 != 0 {
                     let (kind, tail) = rest.split_once(' ').unwrap();
-                    *line = format!("search {kind}~{} {tail}", v % 96);
+                    *line = format!("search {kind}~{} {tail}", v % 192);
                 }
             }
         }
